@@ -44,7 +44,10 @@ var (
 	exrecBase sdk.Context
 
 	exrecOwners = []string{"A", "B", "C", "Z1"}
-	exrecAssets = []string{"apple", "apples", "applesauce", "app", "pear"}
+	// asset denoms: prefixes of each other, and denoms that differ from another one only in the CASE of
+	// their letters (bank denoms are case sensitive: `[a-zA-Z][a-zA-Z0-9/:._-]{2,127}`, every IBC voucher
+	// is `ibc/<UPPER-CASE HEX>`). No '.', ':', ',' or '=' (field separators of the line protocol).
+	exrecAssets = []string{"apple", "apples", "applesauce", "app", "pear", "Apple", "APPLE", "ibc/7F1A", "ibc/7f1a"}
 	exrecPrices = []string{"usd", "eur"}
 	exrecExts   = []string{"x1", "x2", "x3"}
 	// external ids at the length limits (exchange.MaxExternalIDLength = 100): one char, one
